@@ -35,6 +35,27 @@ static _Atomic int pending, peers_done;
 static dispatch_queue_t hq;            // handler queue (serial or concurrent per cfg)
 static int hq_concurrent;
 
+// ---- fault injection: the executable's read/write/pread/pwrite interpose the library's calls on the channel descriptors and, when the recipe
+// asks for it (cfg inject=<permille>), return short counts or EINTR, both of which the kernel may legally produce at any time
+static int inject_permille; static int inject_fd[MAXCH * 2]; static int n_inject_fd;
+static __thread int no_inject;           // set in the harness's own peer threads
+static _Atomic unsigned long inject_rng = 88172645463325252ul;
+static _Atomic long injected_short, injected_eintr;
+static int want_inject(int fd, size_t n, size_t *newn) {
+	if (!inject_permille || no_inject) return 0;
+	int mine = 0; for (int i = 0; i < n_inject_fd; i++) if (inject_fd[i] == fd) mine = 1;
+	if (!mine) return 0;
+	unsigned long r = atomic_load(&inject_rng); r ^= r << 13; r ^= r >> 7; r ^= r << 17; atomic_store(&inject_rng, r);
+	if ((int)(r % 1000) >= inject_permille) return 0;
+	if ((r >> 12) % 4 == 0) { atomic_fetch_add(&injected_eintr, 1); return 2; }
+	if (n > 1) { *newn = 1 + (r >> 16) % (n - 1); atomic_fetch_add(&injected_short, 1); return 1; }
+	return 0;
+}
+ssize_t read(int fd, void *buf, size_t n) { size_t m = n; int k = want_inject(fd, n, &m); if (k == 2) { errno = EINTR; return -1; } return syscall(SYS_read, fd, buf, m); }
+ssize_t write(int fd, const void *buf, size_t n) { size_t m = n; int k = want_inject(fd, n, &m); if (k == 2) { errno = EINTR; return -1; } return syscall(SYS_write, fd, buf, m); }
+ssize_t pread(int fd, void *buf, size_t n, off_t off) { size_t m = n; int k = want_inject(fd, n, &m); if (k == 2) { errno = EINTR; return -1; } return syscall(SYS_pread64, fd, buf, m, off); }
+ssize_t pwrite(int fd, const void *buf, size_t n, off_t off) { size_t m = n; int k = want_inject(fd, n, &m); if (k == 2) { errno = EINTR; return -1; } return syscall(SYS_pwrite64, fd, buf, m, off); }
+
 static inline uint8_t rbyte(int ch, uint64_t p) { return (uint8_t)((p * 131u + (p >> 8) * 7u + (p >> 16) * 3u + (uint64_t)ch * 17u) & 0xff); }
 static inline uint8_t wbyte(int op, uint64_t i) { return (uint8_t)((i * 197u + (i >> 8) * 13u + (uint64_t)op * 29u + 5u) & 0xff); }
 
@@ -153,7 +174,7 @@ static void exec_op(op_t *op) {
 // ---- peers: plain threads doing blocking I/O on the other end
 static void *peer_thread(void *arg) {
 	long ch = (long)arg; chan_t *c = &CH[ch];
-	my_tid = 40 + (uint32_t)ch;
+	my_tid = 40 + (uint32_t)ch; no_inject = 1;
 	uint64_t wpos = 0;
 	static __thread uint8_t buf[65536];
 	for (int i = 0; i < c->npeer; i++) {
@@ -210,7 +231,7 @@ static int load_program(const char *path) {
 		if (sscanf(line, "%31s%n", w, &n) != 1 || w[0] == '#') continue;
 		char *rest = line + n;
 		if (!strcmp(w, "cfg")) { char k[32]; long v; int m; while (sscanf(rest, " %31[a-z_]=%ld%n", k, &v, &m) == 2) { rest += m; if (parse_cfg_kv(k, v)) continue;
-			if (!strcmp(k, "threads")) nthreads = (int)v; else if (!strcmp(k, "hqconc")) hq_concurrent = (int)v; } }
+			if (!strcmp(k, "threads")) nthreads = (int)v; else if (!strcmp(k, "hqconc")) hq_concurrent = (int)v; else if (!strcmp(k, "inject")) inject_permille = (int)v; } }
 		else if (!strcmp(w, "chan")) { int id; chan_t c = { 0 }; if (sscanf(rest, "%d %d %d %d %ld %ld %ld %ld %lu", &id, &c.type, &c.transport, &c.dir, &c.lw, &c.hw, &c.interval_us, &c.pipesz, &c.file_len) < 8) return -2;
 			c.used = 1; c.fd_chan = c.fd_peer = -1; CH[id] = c; }
 		else if (!strcmp(w, "peer")) { int id, kind; long nn; if (sscanf(rest, "%d %d %ld", &id, &kind, &nn) < 3) return -3; if (CH[id].npeer < MAXPEEROPS) CH[id].peer[CH[id].npeer++] = (peerop_t){ kind, nn }; }
@@ -222,6 +243,7 @@ static int load_program(const char *path) {
 	fclose(f); return 0;
 }
 static int create_channels(void) {
+	no_inject = 1;
 	hq = dispatch_queue_create("dvio.handlers", hq_concurrent ? DISPATCH_QUEUE_CONCURRENT : NULL);
 	for (int i = 0; i < MAXCH; i++) if (CH[i].used) {
 		chan_t *c = &CH[i]; int ci = i;
@@ -240,6 +262,7 @@ static int create_channels(void) {
 				if (c->dir == 0) fcntl(c->fd_peer, F_SETFL, O_NONBLOCK); }
 		}
 		int fd = c->fd_chan;
+		inject_fd[n_inject_fd++] = fd;
 		c->io = dispatch_io_create(c->type ? DISPATCH_IO_RANDOM : DISPATCH_IO_STREAM, fd, hq, ^(int error) {
 			logev(EV_CANCELH, ci, error, atomic_load(&pending));
 			close(fd);
@@ -296,6 +319,7 @@ static void *coordinator(void *arg) {
 			for (uint64_t j = 0; j < op->got; j++) if (op->rbuf[j] != rbyte(i, pos + j)) { logev(EV_CHKFAIL, op->id, 31, (int64_t)(pos + j)); bad = 1; break; }
 			pos += op->got; }
 	}
+	logev(EV_VAL, -1, 20, atomic_load(&injected_short)); logev(EV_VAL, -1, 21, atomic_load(&injected_eintr));
 	for (int i = 0; i < MAXCH; i++) if (CH[i].used) { logev(EV_VAL, -20 - i, 12, atomic_load(&CH[i].cleanup_runs)); logev(EV_VAL, -20 - i, 13, (int64_t)CH[i].peer_written); }
 	dispatch_release(hq);
 	logev(EV_FINISH, -1, -1, 0);
